@@ -1928,6 +1928,49 @@ example : (dceL [.s (.bin 2 .add (.var 0) (.lit 1)), .sif (.var 0) false [.bin 3
     = [.s (.bin 2 .add (.var 0) (.lit 1)),
        .ife (.var 1) [.bin 4 .add (.var 2) (.lit 1), .print (.var 4)] [] [(6, .var 2, .var 2)]] := by decide
 
+/-! ## 2b. CCP's boolean shortcut for an if/else -/
+
+/-- FULL STRENGTH: when the shortcut fires (both branches empty, one final assignment with the literal
+pair), the if/else followed by ANY continuation behaves like binding the result name to the
+condition (pair (1,0)) or to its negation (pair (0,1)), for every boolean condition value. -/
+theorem ifshortcut_sound (c : Operand) (r : Nat) (rest : List LStmt) (ρ : Nat → Int)
+    (hb : c.eval ρ = 0 ∨ c.eval ρ = 1) :
+    (ifShortcut true true [(.lit 1, .lit 0)] = .bindCond ∧
+      execL (.ife c [] [] [(r, .lit 1, .lit 0)] :: rest) ρ = execL rest (update ρ r (c.eval ρ))) ∧
+    (ifShortcut true true [(.lit 0, .lit 1)] = .xorCond ∧
+      execL (.ife c [] [] [(r, .lit 0, .lit 1)] :: rest) ρ = execL rest (update ρ r (1 - c.eval ρ)) ∧
+      evalTarget .xor (c.eval ρ) 1 = some (1 - c.eval ρ)) := by
+  refine ⟨⟨by decide, ?_⟩, by decide, ?_, ?_⟩
+  · generalize hv : c.eval ρ = v at hb
+    have e0 : ∀ n : Int, (Operand.lit n).eval ρ = n := fun _ => rfl
+    rcases hb with h | h <;> subst h <;> simp [execL, execSimple, assignAll, hv, e0]
+  · generalize hv : c.eval ρ = v at hb
+    have e0 : ∀ n : Int, (Operand.lit n).eval ρ = n := fun _ => rfl
+    rcases hb with h | h <;> subst h <;> simp [execL, execSimple, assignAll, hv, e0]
+  · rcases hb with h | h <;> rw [h] <;> decide
+
+/-- the shortcut never fires unless both branches are empty -/
+theorem ifshortcut_requires_empty_branches (s1e s2e : Bool) (fas : List (Operand × Operand))
+    (h : ifShortcut s1e s2e fas ≠ .keep) : s1e = true ∧ s2e = true ∧ fas.length = 1 := by
+  unfold ifShortcut ifShortcutWith at h
+  by_cases hc : ((!true || s1e) && (!true || s2e) && fas.length == 1) = true
+  · simp only [Bool.not_true, Bool.false_or, Bool.and_eq_true, beq_iff_eq] at hc
+    exact ⟨hc.1.1, hc.1.2, hc.2⟩
+  · simp at h; exact ⟨h.1, h.2.1, h.2.2.1⟩
+
+/-- The `s2.is_empty()` conjunct is necessary (seeded-fault class C02g): with an effect in the else
+branch the original prints when the condition is false, the "shortcut" result never prints. -/
+theorem ifshortcut_needs_s2_empty :
+    ifShortcut true false [(.lit 1, .lit 0)] = .keep ∧ ifShortcutWith true false true false [(.lit 1, .lit 0)] = .bindCond ∧
+    (execL [.ife (.var 0) [] [.print (.lit 7)] [(2, .lit 1, .lit 0)]] (fun _ => 0)).1 = [7] ∧
+    (execL ([] : List LStmt) (update (fun _ => 0) 2 0)).1 = [] := by decide
+
+/-- … and so is the `s1.is_empty()` conjunct -/
+theorem ifshortcut_needs_s1_empty :
+    ifShortcut false true [(.lit 0, .lit 1)] = .keep ∧ ifShortcutWith false true false true [(.lit 0, .lit 1)] = .xorCond ∧
+    (execL [.ife (.var 0) [.print (.lit 7)] [] [(2, .lit 0, .lit 1)]] (fun _ => 1)).1 = [7] ∧
+    (execL ([] : List LStmt) (update (fun _ => 1) 2 0)).1 = [] := by decide
+
 end SamVerif.Opt
 
 /-! ## 12. Temporary names across phases: the round driver keeps the heap's counter ahead of every
